@@ -66,7 +66,7 @@ def ballot_list(draw, integer):
 
 
 @st.composite
-def case(draw):
+def case(draw, max_c=6, max_b=8):
     kind = draw(st.sampled_from(["frac", "rand", "run", "run"]))
     if kind in ("frac", "rand"):
         cands, winner, bl, fpv = draw(ballot_list(integer=(kind == "rand")))
@@ -77,7 +77,7 @@ def case(draw):
         return {"kind": kind, "cands": cands, "winner": winner, "ballots": bl,
                 "fpv": C.enc(fpv), "threshold": thr, "rng": draw(S.rng_spec())}
     transfer = draw(st.sampled_from(["fractional", "random"]))
-    prof = draw(S.ranked_profile(1, 6, 8, tied=False,
+    prof = draw(S.ranked_profile(1, max_c, max_b, tied=False,
                                  weights="int" if transfer == "random" else "mixed",
                                  tie_rich=draw(st.integers(0, 3)) == 0))
     n = len(prof["cands"])
@@ -91,7 +91,7 @@ def case(draw):
 
 
 def strategy(tier):
-    return case()
+    return case() if tier == "quick" else st.one_of(case(), case(8, 12))
 
 
 def _rmap(ballots):
